@@ -268,9 +268,46 @@ def zoo_tramps(rng, base, size):
 
 # ------------------------------------------------------------------ running
 
+def bigloop_source(pkg, fname, extra=''):
+    """Go source of a leaf function of > 16 KiB machine code that is ONE loop: the loop head lies right behind a 5-byte
+    initialisation (inside the bytes the entry jump overwrites) and the branch back to it is the last thing in the function.
+    Such a function has no faithful trampoline: the apply must be refused.  Deterministic (independent of VERIF_SEED)."""
+    r = C.Rng(20260928)
+    vs = ['a', 'b', 'c', 'd']
+    body = []
+    for _ in range(3200):
+        x, y = r.choice(vs), r.choice(vs)
+        k = 3 + r.below(32000)
+        m = r.below(5)
+        if m == 0:
+            body.append(f'\t\t{x} -= {y} & {k}')
+        elif m == 1:
+            body.append(f'\t\t{x} ^= {y} + {k}')
+        elif m == 2:
+            body.append(f'\t\t{x} = {x}*{k | 1} + {y}')
+        elif m == 3:
+            body.append(f'\t\t{x} += {y} ^ {k}')
+        else:
+            sh = 1 + r.below(62)
+            body.append(f'\t\t{x} = {x}<<{sh} | int(uint({x})>>{64 - sh})')
+    return (f'package {pkg}\n\n// GENERATED by checks/C03.py bigloop_source — do not edit.\n{extra}\n//go:noinline\nfunc {fname}(n, a, b, c int) int {{\n\td := 1\n\tfor {{\n'
+            + '\n'.join(body) + '\n\t\tn--\n\t\tif n <= 0 {\n\t\t\tbreak\n\t\t}\n\t}\n\treturn a ^ b ^ c ^ d\n}\n')
+
+
+def gen_file(name, text):
+    d = os.path.join(C.BUILD, 'c03gen')
+    os.makedirs(d, exist_ok=True)
+    p = os.path.join(d, name)
+    if not os.path.exists(p) or open(p).read() != text:
+        open(p, 'w').write(text)
+    return p
+
+
 def build_probe():
     tag, pkg, files = PROBE
     fm = {k: os.path.join(C.HARNESS, v) for k, v in files.items()}
+    fm['zz_verif_c03_bigloop_test.go'] = gen_file('patch_bigloop_test.go', bigloop_source(
+        'patch', 'c03BigLoop', '\nimport "reflect"\n\n// keeps the function alive in the test binary (it is only looked at through the symbol table)\nvar C03BigLoopPC uintptr\n\nfunc init() { C03BigLoopPC = reflect.ValueOf(c03BigLoop).Pointer() }\n'))
     b, err = C.overlay_build(tag, pkg, fm, C.helper_pkgs())
     if b is None:
         raise C.Infra(f'probe {tag} does not build against the current tree:\n{err[-3000:]}')
@@ -347,7 +384,7 @@ def run_requests(binary, reqs, tag='c03'):
     rp = os.path.join(C.BUILD, f'{tag}.req')
     raw = os.path.join(C.BUILD, f'{tag}.raw')
     open(rp, 'w').write('\n'.join(reqs) + '\n')
-    rc, log = C.run_probe(binary, 'TestVerifC03', rp, raw, timeout=1500)
+    rc, log = C.run_probe(binary, 'TestVerifC03', rp, raw, timeout=600 if len(reqs) < 20000 else 1800)   # typical: 15 s quick, 4 min thorough
     if rc != 0:
         raise C.Infra(f'probe failed rc={rc}:\n{log[-2000:]}')
     cases = []
@@ -411,14 +448,42 @@ def classify_unfaithful(op, r):
 EXEC_ZOO = [  # what is mocked; whether the prologue has a stack check is read from the code by the probe (stack=...)
     'S1', 'SetX', 'CmpX', 'S2', 'S3', 'Leaf', 'Load', 'Big', 'Big2', 'Printer', 'G', 'Fib', 'Sq', 'Deep', 'Mixed', 'Tiny', 'Mul4',
     'TwinLeafG', 'TripleLeafGLoad', 'TwinS2S3', 'TwinSqCube', 'TwinDblSq', 'RemockSq', 'RemockDbl', 'RemockSameBuilderCube',
-    'Generic', 'GenericPlain', 'Method', 'MethodTwinTypes', 'RemockRefused']
+    'Generic', 'GenericPlain', 'BigLoop', 'LoopHead', 'LoopCount', 'Method', 'MethodTwinTypes', 'RemockRefused']
 EXEC_RECURSIVE = {'Fib', 'Deep'}
+EXEC_BIGLOOP_REG = '''
+import (
+	"fmt"
+	"sync/atomic"
+
+	goom "github.com/tencent/goom"
+)
+
+func init() {
+	run := func() string { return fmt.Sprint(BigLoop(3, 3, 5, 7), ";", BigLoop(1, -3, 1<<40, 7), ";", BigLoop(17, 1, 2, 3)) }
+	zoo["BigLoop"] = kase{fns: []interface{}{BigLoop}, expect: 3, plain: run,
+		install: func(cnt *int32) (func() string, interface{}, func()) {
+			origin := func(n, a, b, c int) int {
+				fmt.Println("only for placeholder, will not call", n, a, b, c)
+				fmt.Println("only for placeholder, will not call", n, a, b, c)
+				fmt.Println("only for placeholder, will not call", n, a, b, c)
+				return 0
+			}
+			m := goom.Create()
+			m.Func(BigLoop).Origin(&origin).Apply(func(n, a, b, c int) int {
+				atomic.AddInt32(cnt, 1)
+				return origin(n, a, b, c)
+			})
+			return run, BigLoop, func() { m.Reset() }
+		}}
+}
+'''
 
 
 def build_exec():
     ex = os.path.join(C.HARNESS, 'c03', 'exec')
     extra = dict(C.helper_pkgs())
-    extra['internal/zzverif/c03exec'] = {'exec_test.go': os.path.join(ex, 'exec_test.go'), 'gen118_test.go': os.path.join(ex, 'gen118_test.go')}
+    extra['internal/zzverif/c03exec'] = {'exec_test.go': os.path.join(ex, 'exec_test.go'), 'gen118_test.go': os.path.join(ex, 'gen118_test.go'),
+                                         'bigloop_test.go': gen_file('exec_bigloop_test.go', bigloop_source('c03exec', 'BigLoop', EXEC_BIGLOOP_REG))}
     extra['internal/zzverif/c03exec/a'] = {'repo.go': os.path.join(ex, 'a', 'repo.go')}
     extra['internal/zzverif/c03exec/b'] = {'repo.go': os.path.join(ex, 'b', 'repo.go')}
     b, err = C.overlay_build('c03-exec', 'internal/zzverif/c03exec', {}, extra, ldflags='-s=false')   # by-name lookup needs the symbol table
@@ -431,7 +496,7 @@ def run_exec(binary, names, maxdepth, step, tag='c03x'):
     ops = os.path.join(C.BUILD, f'{tag}.req')
     outp = os.path.join(C.BUILD, f'{tag}.raw')
     open(ops, 'w').write(''.join(f'c03.exec {n} {maxdepth} {step}\n' for n in names))
-    rc, log = C.run_probe(binary, 'TestVerifC03Exec', ops, outp, timeout=1500)
+    rc, log = C.run_probe(binary, 'TestVerifC03Exec', ops, outp, timeout=900)   # children: 120 s + one 300 s retry each, 8 in parallel
     if rc != 0:
         raise C.Infra(f'executed-layer probe failed rc={rc}:\n{log[-2000:]}')
     return list(zip(names, C.read_indexed(outp, len(names))))
@@ -576,7 +641,7 @@ def run(tier):
         seen.add(key)
         if len(seen) > 3:
             break
-        label = classify_unfaithful(op, r)
+        label = classify_unfaithful(op, r) if not v.startswith('unfaithful:branch-into-prefix') else None
         # is this the code as it was before fixes F2/F3?  (the driver also carries the pre-fix model)
         lm, _ = run_model([op.replace('c03.reloc', 'c03.reloc.legacy', 1)], tag='c03-legacy')
         if not (label and lm and lm[0] == cases[k][2]):
@@ -585,6 +650,7 @@ def run(tier):
             label = 'implementation equals the pre-fix model -> ' + label
         out.violation(f'relocated copy is not faithful ({v}) for {m.get("name", "a function of the test binary")}' + (f' [{label}]' if label else ''),
                       {'kind': 'impl-oracle', 'ops': [op], 'observed': r, 'verdict': v, 'looks_like': label,
+                       'symbol': cases[k][3][1] if len(cases[k][3]) > 1 and cases[k][3][1] else None,
                        'how': 'python3 check.py C03 --replay <this file>'})
     for k, op, res, jb, m in raw_whole[:1]:
         out.violation('fixOriginFuncToTrampoline copied the whole function but wrote the RAW original bytes, not the relocated ones: PC-relative operands '
@@ -667,7 +733,12 @@ def replay(body):
     reqs = []
     for op in ops:
         t = op.split()
-        if t[0] in ('c03.reloc', 'c03.reloc.legacy'):
+        if body.get('symbol') and t[0] == 'c03.reloc':
+            # a function of the probe binary: replayed by symbol name, with the linker's extent of the function
+            frm = int(t[1], 16)
+            deltas = ','.join(str(((int(x, 16) - frm + (1 << 63)) % (1 << 64)) - (1 << 63)) for x in t[5].split(','))
+            reqs.append(f'c03.fn {body["symbol"]} {deltas}')
+        elif t[0] in ('c03.reloc', 'c03.reloc.legacy'):
             code = ''.join(x.split(':')[4] for x in t[6:])
             reqs.append(f'c03.zoo replay {t[1]} {t[5]} {code}')
     cases = run_requests(binary, reqs, tag='c03-replay')
